@@ -7,7 +7,8 @@ the answers of the real single-token validators:
   expand_line_clamp, expand_flex, expand_font,
   _expand_grid_column_row_area + expand_grid_column_row + expand_grid_area,
   _expand_grid_template + expand_grid_template, expand_grid,
-  PendingExpander.validate (a shorthand containing var(): which value a longhand gets once substituted)
+  PendingExpander.validate (a shorthand containing var(): which value a longhand gets once substituted;
+                            the whole shorthand is expanded before one longhand is picked)
 
 Values are identified by token ids (`α`); a value made of several tokens is a list of ids.
 No Mathlib, no Std: linked into the driver.
@@ -56,7 +57,7 @@ def lineClampRaw {α : Type} (noneTok autoTok discardTok : α) : List (ClampTok 
 
 /-- What `expand_flex` reads of a token. -/
 structure FlexTok where
-  isZeroNumber : Bool       -- token.type == 'number' and token.int_value == 0
+  isZeroNumber : Bool       -- token.type == 'number' and token.value == 0  (`0`, `0.0`, `-0`, `0e3`: any zero)
   basisOk : Bool            -- flex_basis([token]) is not None
   factor : Option Rat       -- flex_grow_shrink([token])
   id : String
@@ -313,17 +314,25 @@ def gridRaw {α : Type} (template : Raw (List α)) (autoTok noneTok rowTok colum
 
 /-! ### `PendingExpander.validate`: a shorthand with var(), once substituted -/
 
-/-- `PendingExpander.validate(tokens, wanted_key)`: iterate the registered expander on the substituted tokens
-(`gen`: what it yields, then how it ends), rename suffix keys, **return at the first** `wanted_key`; when the
-generator is exhausted without it: its exception if it raised, else `KeyError`.  The iteration is lazy: an
-`InvalidValues` raised *after* the wanted longhand was yielded is never seen. -/
+/-- `list(expander(tokens))`: what the funnel gets out of a *literal* shorthand declaration — all the items, or
+the exception that ended the expansion. -/
+def Raw.consumed {β : Type} (gen : Raw β) : R (List (String × β)) :=
+  match gen.ends with
+  | some f => .error f
+  | none => .ok gen.items
+
+/-- `PendingExpander.validate(tokens, wanted_key)`: `for key, value in tuple(self.validator(tokens))` — the
+registered expander is run **to its end** on the substituted tokens first (`gen`: what it yields, then how it
+ends): an exception raised anywhere in the expansion (`InvalidValues` for a later longhand included) leaves
+`validate` before any item is looked at.  Then suffix keys are renamed and the first `wanted_key` is returned;
+`KeyError` when the expansion does not name it. -/
 def pendingExpanderValidate {β : Type} (name : String) (gen : Raw β) (wanted : String) : R β :=
-  go gen.items
+  match gen.ends with
+  | some f => throw f          -- raised inside `tuple(...)`
+  | none => go gen.items
 where
   go : List (String × β) → R β
-    | [] => match gen.ends with
-      | some f => throw f
-      | none => throw .keyError
+    | [] => throw .keyError
     | (k, v) :: rest =>
       let key := if startsWith k "-" then name ++ k else k
       if key == wanted then pure v else go rest
